@@ -11,4 +11,11 @@ ScriptsThorough == ScriptsK({0, 1, 2, 3, 4, 6, 7}, 4)
 \* WriterI's emitted partition is a prefix of the pure Plan function (which the trace spec
 \* compares with the members the real writer emits)
 PlanAgrees == IsPrefix([i \in DOMAIN sink |-> sink[i][2] - sink[i][1]], Plan(B, script))
+\* --- liveness (C09w: no call hangs).  Deadlock detection shows that no reachable state is stuck; it cannot see
+\* a cycle in which the library keeps moving while the caller never gets its reply.  Under weak fairness of the
+\* progress actions (everything but the final stuttering) every behaviour reaches ApiDone and stays there.
+Progress == Next /\ ~ApiDone
+LiveSpec == Spec /\ WF_vars(Progress)
+AllCallsReturn == <>[]ApiDone
+ScriptsLive == ScriptsK({0, 1, 4, 7}, 2)
 ====
